@@ -1285,6 +1285,15 @@ impl OpenOptions {
             // Handle missing file
             if !file_exists {
                 if self.create || self.create_new {
+                    // A directory already owns this name: creating a regular
+                    // file here would leave the path both a file and a directory.
+                    if ctx.fs.dir_exists(&resolved_path) {
+                        return Err(if self.create_new {
+                            Error::new(ErrorKind::AlreadyExists, "file already exists")
+                        } else {
+                            Error::new(ErrorKind::IsADirectory, "Is a directory")
+                        });
+                    }
                     // Check parent directory exists
                     if !ctx.fs.parent_exists(&resolved_path) {
                         return Err(Error::new(
